@@ -34,6 +34,7 @@ func (l IntegerLiteral) Value() int {
 
 type StringLiteral struct {
 	value string
+	isNil bool // True if the literal has been written as nil.
 }
 
 func (l StringLiteral) StatementType() StatementType {
@@ -46,4 +47,8 @@ func (l StringLiteral) ValueType() ValueType {
 
 func (l StringLiteral) Value() string {
 	return l.value
+}
+
+func (l StringLiteral) IsNil() bool {
+	return l.isNil
 }
